@@ -41,7 +41,7 @@ def own_term_commit(cx):
     cx.check(n >= 2, "floor", "the MsgReadIndex arm registers (Safe) and answers (single voter / lease) reads")
 
 
-@obligation("READ.recorded_index", ["C08", "C01", "C04"], floor=2, kind="argument source + value shape",
+@obligation("READ.recorded_index", ["C08", "C01", "C04", "C20"], floor=2, kind="argument source + value shape",
             why="the index promised to the reader must be the commit index at registration, and the probe must carry that request's context")
 def recorded_index(cx):
     ar = cx.fn("ReadOnly::add_request")
@@ -72,6 +72,20 @@ def recorded_index(cx):
         cx.check(imm or rel, cx.site_key(c, "read-index"), "a read is answered with raft_log.committed or with the (req, index) pair recorded at registration (found %s)" % show(idx)[:100], c)
         nimm += 1
     cx.check(nimm >= 2, "read-index:floor", "the sites answering reads were found")
+    # a request whose context is already pending is not queued again (the queue and the map must stay one-to-one: a context
+    # queued twice leaves `advance` with a queue entry that has no status -- its unwrap / fatal)
+    pushes = [c for c in cx.prog.all_calls if c.fn is ar and c.data["callee"].endswith("VecDeque::push_back")]
+    for c in pushes:
+        def fresh(l):
+            e = l[1]
+            if l[0] == "is" and l[2] is False and e[0] == "call" and e[1].endswith("::contains_key") and any(is_f(x, "ReadOnly.pending_read_index") for x in walk(e)):
+                return True
+            if l[0] == "in" and l[2] in (frozenset(["Vacant"]), frozenset([1])) and e[0] == "call" and e[1].endswith("::entry") and any(is_f(x, "ReadOnly.pending_read_index") for x in walk(e)):
+                return True
+            if l[0] == "in" and l[2] == frozenset(["None"]) and e[0] == "call" and (e[1].endswith("HashMap::get") or e[1].endswith("HashMap::insert")) and any(is_f(x, "ReadOnly.pending_read_index") for x in walk(e)):
+                return True
+            return False
+        require(cx, c, cx.site_key(c, "dedupe"), "a read request is queued only if its context is not already in the pending map (the whole map, not just the newest entry)", fresh, kill=False)
     # what add_request stores (directly, or through a private constructor helper it calls with its own parameters)
     ok_idx = ok_req = ok_ack = False
     cands = [(ar, None)]
